@@ -217,12 +217,39 @@ SEEDS6 = {
     "C20-10": ("C20", ["C20"], "a first-submission Set that fails although a checkpoint can now be read re-enters Update (attempt counted twice)", "two overlapping first submissions for one log, both reading 'nothing stored' before either writes"),
 }
 SEEDS2.update(SEEDS6)
+SEEDS7 = {
+    "C01-9": ("C01", ["C01", "C09"], "(as C01-1, written independently) Update as one switch with the size-0 case ahead of the equal-size root comparison", "stored size 0, then a log-signed size-0 checkpoint with another root"),
+    "C01-10": ("C01", ["C03", "C05", "C07", "C01"], "cosignAndStore with named results: a failed Set returns the already-cosigned checkpoint with the error", "a lost in-memory race or a write fault, then an update on the other branch; the observer must look at bytes returned next to an error"),
+    "C02-9": ("C02", ["C02", "C12"], "parse() fast path: a note that verifies under the witness's own cosignature/v1 key skips the log-signature and origin checks", "a cosignature/v1 witness key and bytes the witness returned for log A submitted for another configured log"),
+    "C02-10": ("C02", ["C02", "C04", "C09"], "cheap-checks-first reorder: peek() without verification; the size-0 branch still signs and stores the unverified note", "stored size-0 checkpoint, then any note with the right origin, size 0, same root, old 0, empty proof and a text the log never signed"),
+    "C03-9": ("C03", ["C03", "C07"], "Update with named results: a deferred closure copies write.Close()'s error into err after Set committed (sql Close swallows ErrTxDone)", "an accepted update whose Close() reports an error after a successful Set"),
+    "C03-10": ("C03", ["C03", "C07"], "a failed Set on a same-size refresh returns the freshly signed bytes with the error", "a refresh whose Set fails, a cosignature/v1 key, and the clock in a later second than the stored cosignature"),
+    "C04-9": ("C04", ["C05", "C04"], "all accepting paths return w.GetCheckpoint(logID) (a re-read after the commit) instead of the signed bytes", "update B built on A's new size running entirely between A's commit and A's return"),
+    "C04-10": ("C04", ["C04", "C10"], "(as C04-7, written independently) same-size refresh re-signs the stored note", "an accepted update, then a same-size same-root refresh with other extension lines"),
+    "C05-9": ("C05", ["C05"], "(as C05-5, written independently) inmemory check under RLock, store under a separately taken Lock", "truly parallel Set calls of writers holding the same snapshot"),
+    "C05-10": ("C05", ["C05", "C03"], "signAndStore returns the cosigned checkpoint together with the storage error", "the ordinary both-read-then-both-write conflict on the in-memory store; the observer must look at bytes returned next to an error"),
+    "C07-9": ("C07", ["C07"], "isNotFound helper also accepts errors.Is(err, fs.ErrNotExist) as 'nothing stored'", "a read-latest fault that is or wraps ENOENT / os.ErrNotExist at a position where a checkpoint is stored"),
+    "C07-10": ("C07", ["C07"], "a same-size refresh logs a failed Set and returns (signed, nil)", "a refresh whose write fails and whose returned bytes differ from the stored ones (cosignature/v1 key, later second)"),
+    "C08-9": ("C08", ["C08"], "signChkpt counts signature lines before signing (+1, assuming one witness signer) instead of re-opening the cosigned note", "two witness signers and an accepted update with exactly 98 extra signature lines"),
+    "C08-10": ("C08", ["C08", "C09"], "(as C09-7) same-size check compares the signed text", "a stored checkpoint with extension lines and an honest same-size probe with other or no extension lines"),
+    "C09-9": ("C09", ["C09", "C08"], "(as C09-7, written independently) equal-size rule compares the whole body", "same size, same root, different extension lines"),
+    "C09-10": ("C09", ["C07", "C09"], "sql getLatestCheckpoint maps every row.Scan error to NotFound", "SQL store, a stored checkpoint, a step-time read failure (locked database) inside the update, the write succeeding"),
+    "C10-9": ("C10", ["C10"], "ErrInvalidProof wrapped with %w on the empty-tree path only; the bastion handler compares by identity", "witness holding a size-0 checkpoint, the same checkpoint resubmitted with old 0 and a non-empty proof"),
+    "C10-10": ("C10", ["C10"], "handleUpdate emits every signature line whose NAME equals the witness's (verified or not)", "a log-valid checkpoint with an extra line named like the witness under a foreign key hash"),
+    "C13-9": ("C13", ["C13"], "the witness-ahead check computes int64(submit) - int64(latest)", "witness and log sizes 2^63 or more apart"),
+    "C13-10": ("C13", ["C13"], "%v -> %w on the feeder's error wraps: a collaborator error carrying a backoff.PermanentError ends the retry loop", "a transient failure whose chain contains *backoff.PermanentError"),
+    "C15-9": ("C15", ["C15"], "witness signature counted by key NAME only", "a log key with the same name as the witness key (different key)"),
+    "C15-10": ("C15", ["C15"], "URL built via u.Path = path.Join(..., url.PathEscape(name)): the name is escaped twice", "a witness name containing a character PathEscape rewrites"),
+    "C18-9": ("C18", ["C18"], "(as C18-6 family) GetData resolves the path as a URL reference against the base (drops the last segment of a base without trailing slash)", "a SumDB mounted under a path prefix"),
+    "C18-10": ("C18", ["C18", "C14"], "fetchProof re-reads /latest and proves to the log's CURRENT head instead of the checkpoint being fed", "the log publishes a larger checkpoint between the feeder's read of /latest and fetchProof"),
+}
+SEEDS2.update(SEEDS7)
 ROUND5 = {'C01', 'C02', 'C03', 'C04', 'C05', 'C07', 'C08', 'C09', 'C10', 'C13', 'C15', 'C18'}
 SRC = {}
 for _sid in SEEDS2:
     _pid, _k = _sid.split("-")
     if int(_k) >= 9:
-        SRC[_sid] = f"/tmp/seed6/{_pid}/_out/{int(_k) - 8}"
+        SRC[_sid] = f"/tmp/seed7/{_pid}/_out/{int(_k) - 8}" if _pid in ROUND5 else f"/tmp/seed6/{_pid}/_out/{int(_k) - 8}"
         continue
     SRC[_sid] = f"/tmp/seed2/{_pid}/_out/{int(_k) - 2}" if int(_k) <= 4 else (f"/tmp/seed3/{_pid}/_out/{int(_k) - 4}" if int(_k) <= 6 else (f"/tmp/seed5/{_pid}/_out/{int(_k) - 6}" if _pid in ROUND5 else f"/tmp/seed4/{_pid}/_out/{int(_k) - 6}"))
 SEEDS.update(SEEDS2)
